@@ -44,5 +44,13 @@ REGISTRY["C03"] = dict(
          "reader, TOC and clean-up code runs once per feasible (k1,k2[,k3]); every path must show the generation's recorded state.",
     note=_BOUNDED + "  A reader step is atomic at a writer's storage-operation boundary (<=3 context switches); one process.")
 
+REGISTRY["C04"] = dict(
+    modules=["harness.c04_locking"],
+    technique="CrossHair: competing writer attempt injected at a symbolic storage-operation boundary of the real writer; try_for against a symbolic clock",
+    text="The instant of a competing writer attempt is symbolic over the lock holder's real transaction script; LockError must occur exactly while "
+         "the lock is held, a successful competitor's commit must survive, generations advance by one per commit.  try_for is executed "
+         "symbolically with a symbolic clock and symbolic acquire outcomes.",
+    note=_BOUNDED + "  One process; flock semantics between processes are trusted.")
+
 _PENDING = "check not built yet in this round (work in progress; see DESIGN.md section 4)"
 NOT_APPLICABLE = {("C%02d" % i): _PENDING for i in range(1, 21) if ("C%02d" % i) not in REGISTRY}
